@@ -86,6 +86,7 @@ type Exec struct {
 	lastArgTypes    map[string]types.Type
 	lastResTypes    map[string]types.Type
 	counters        map[string]bool
+	strCatAxiom     bool
 	strLits         map[string]string
 	letDepth        int
 	qrec            map[string]*qRecord
@@ -259,6 +260,14 @@ func (ex *Exec) defaultTerm(key string, b *Base) string {
 		if wf := wfFact(key, t, "top!0"); wf != "" {
 			ex.preAssume = append(ex.preAssume, wf)
 		}
+		if key == "X|dns.ans" {
+			// recorded answers are slices that exist
+			ex.preAssume = append(ex.preAssume, "(forall ((q!w Str) (r!w Int)) (! (=> (select (select "+t+" q!w) r!w) (and (<= 1 r!w) (<= r!w top!0))) :pattern ((select (select "+t+" q!w) r!w))))")
+		}
+		if key == "X|cache.ref" {
+			// stored values exist
+			ex.preAssume = append(ex.preAssume, "(forall ((k!w Str)) (! (and (<= 0 (select "+t+" k!w)) (<= (select "+t+" k!w) top!0)) :pattern ((select "+t+" k!w))))")
+		}
 		if key == "X|isOpen" {
 			// typestate well-formedness: an object that is not allocated yet is not an open handle
 			ex.preAssume = append(ex.preAssume, "(forall ((r!w Int)) (! (=> (> r!w top!0) (not (select "+t+" r!w))) :pattern ((select "+t+" r!w))))")
@@ -269,7 +278,8 @@ func (ex *Exec) defaultTerm(key string, b *Base) string {
 		if wf := wfFact(key, t, b.top); wf != "" {
 			ex.preAssume = append(ex.preAssume, wf)
 		}
-		if b.prevBase != nil && ex.w.immutableFieldKey(key) {
+		if b.prevBase != nil && (ex.w.immutableFieldKey(key) || strings.HasPrefix(key, "B|")) {
+			// (boxed interface payloads are immutable in Go)
 			prev, ok := b.prevH[key]
 			if !ok {
 				prev = ex.defaultTerm(key, b.prevBase)
@@ -352,6 +362,20 @@ func (ex *Exec) heapGet(st *State, key, sort string) string {
 func (ex *Exec) heapSet(st *State, key, sort, term string) {
 	ex.registerKey(key, sort)
 	st.H[key] = ex.name("h", term, sort)
+	for _, l := range ex.loopStack {
+		m := ex.loopMods[l]
+		if m == nil {
+			m = map[string]bool{}
+			ex.loopMods[l] = m
+		}
+		m[key] = true
+	}
+}
+
+// setH writes a heap/ghost key without renaming the term; like heapSet it records the key in the modification sets of
+// the enclosing loops (a loop must forget every key its body may write).
+func (ex *Exec) setH(st *State, key, term string) {
+	st.H[key] = term
 	for _, l := range ex.loopStack {
 		m := ex.loopMods[l]
 		if m == nil {
